@@ -50,7 +50,7 @@ const (
 	s2 = ":S2]]"
 )
 
-var c03Carriers = []string{"param-bare", "letc-bare", "print", "letc", "param-content", "call-value", "call-all", "call-deep", "msg", "letc-reprint", "data-map", "after-call", "loop-around-call"}
+var c03Carriers = []string{"param-bare", "letc-bare", "print", "letc", "param-content", "call-value", "call-all", "call-deep", "msg", "letc-reprint", "data-map", "after-call", "loop-around-call", "after-log"}
 var c03Modes = []string{"", "true", "false", "contextual", "deprecated-contextual"}
 
 func intE(i int) *ref.Expr    { return &ref.Expr{Op: "int", I: int64(i)} }
@@ -119,6 +119,9 @@ func buildC03(c C03Case) (pc gen.ProgCase, printerNs, printerTmpl string) {
 	case "after-call":
 		// the caller prints after a call to a template with its own mode has returned
 		main.Body = append([]ref.Cmd{txt("<p>"), {K: "call", Call: &ref.Call{Target: "b.lib.show", Style: 1, Params: []ref.Param{{Key: "x", Value: &ref.Expr{Op: "str", S: "k"}}}}}, txt("|")}, framed...)
+	case "after-log":
+		// the print follows a {log} block that was executed (no logger is installed: the default)
+		main.Body = append([]ref.Cmd{txt("<p>"), {K: "log", Body: []ref.Cmd{txt("seen "), under}}, txt("|")}, framed...)
 	case "loop-around-call":
 		main.Body = []ref.Cmd{{K: "for", Var: "it", Expr: &ref.Expr{Op: "call", Name: "range", Args: []*ref.Expr{{Op: "int", I: 2}}}, Body: append(append([]ref.Cmd{}, framed...),
 			ref.Cmd{K: "call", Call: &ref.Call{Target: "b.lib.show", Style: 1, Params: []ref.Param{{Key: "x", Value: &ref.Expr{Op: "str", S: "k"}}}}})}}
